@@ -82,6 +82,23 @@ void resolve()
 }
 __attribute__((constructor(101))) void resolveCtor() { resolve(); }
 
+// ------------------------------------------------------------------ freed synchronisation objects (ASan builds)
+// The scheduler itself is not instrumented and emulates condition variables, so an operation on a mutex / condition
+// variable / rwlock that lives in memory the program has already freed would go unnoticed.  In an AddressSanitizer build
+// of the driver the runtime can be asked: the operation is checked at the moment it is performed (after the grant).
+extern "C" void *__asan_region_is_poisoned(void *beg, size_t size) __attribute__((weak));
+static void checkLive(void *p, size_t n, const char *what)
+{
+  if (!__asan_region_is_poisoned || !p) return;
+  if (__asan_region_is_poisoned(p, n))
+  {
+    char buf[160];
+    int k = snprintf(buf, sizeof buf, "vf::sched: %s on a synchronisation object in freed (poisoned) memory at %p - use after free\n", what, p);
+    if (k > 0) (void)!::write(2, buf, (size_t)k);
+    abort();
+  }
+}
+
 // ------------------------------------------------------------------ low-level blocking
 long futexWait(std::atomic<int> *w, int val, int timeoutMs)
 {
@@ -416,6 +433,8 @@ void advanceTo(long long adv)
 int doCondWait(Th *t, pthread_cond_t *c, pthread_mutex_t *m, bool timed, long long deadlineAdv = 0)
 {
   atPoint(t, OpCvWait, c, m, timed);
+  checkLive(c, sizeof *c, "pthread_cond_wait");
+  checkLive(m, sizeof *m, "pthread_cond_wait (mutex)");
   t->deadlineAdv = deadlineAdv;
   t->wakeAt = deadlineAdv;
   // granted: atomically (w.r.t. the schedule: nobody else runs) release the mutex and park
@@ -442,6 +461,7 @@ int doCondWait(Th *t, pthread_cond_t *c, pthread_mutex_t *m, bool timed, long lo
     leaveTokens(t);
     t->notified = false;
   }
+  checkLive(m, sizeof *m, "pthread_cond_wait (re-acquiring the mutex)");
   r_mutex_lock(m);
   {
     Lock l;
@@ -483,6 +503,7 @@ int pthread_mutex_lock(pthread_mutex_t *m)
   Th *t = cur();
   if (!t) return r_mutex_lock(m);
   atPoint(t, OpLock, m, nullptr, false);
+  checkLive(m, sizeof *m, "pthread_mutex_lock");
   int rc = r_mutex_lock(m);
   {
     Lock l;
@@ -497,6 +518,7 @@ int pthread_mutex_trylock(pthread_mutex_t *m)
   Th *t = cur();
   if (!t) return r_mutex_trylock(m);
   atPoint(t, OpTryLock, m, nullptr, false);
+  checkLive(m, sizeof *m, "pthread_mutex_trylock");
   int rc = r_mutex_trylock(m);
   if (rc == 0)
   {
@@ -512,6 +534,7 @@ int pthread_mutex_unlock(pthread_mutex_t *m)
   Th *t = cur();
   if (!t) return r_mutex_unlock(m);
   atPoint(t, OpUnlock, m, nullptr, false);
+  checkLive(m, sizeof *m, "pthread_mutex_unlock");
   {
     Lock l;
     G->owner.erase(m);
@@ -553,6 +576,7 @@ int pthread_cond_signal(pthread_cond_t *c)
   if (!g_resolved) resolve();
   Th *t = cur();
   if (t) atPoint(t, OpSignal, c, nullptr, false);
+  if (t) checkLive(c, sizeof *c, "pthread_cond_signal");
   markSignal(c, false);
   return r_cond_signal(c);
 }
@@ -562,6 +586,7 @@ int pthread_cond_broadcast(pthread_cond_t *c)
   if (!g_resolved) resolve();
   Th *t = cur();
   if (t) atPoint(t, OpBroadcast, c, nullptr, false);
+  if (t) checkLive(c, sizeof *c, "pthread_cond_broadcast");
   markSignal(c, true);
   return r_cond_broadcast(c);
 }
